@@ -54,7 +54,7 @@ def generator_documents(ck, thorough):
         cases = ck.path("gen-%d.ndjson" % k)
         try:
             ck.tlc(sdir, module, cfg, label="generator documents for the protocol checks: %s %s" % (module, cfg), env={"VERIF_CASES": cases, "VERIF_SEED": ck.seed},
-                   timeout=(1200 if thorough else 90), count=False, lib_dirs=(vcheck.COMMON,) + tuple(os.path.join(vcheck.SPEC, d) for d in ("cursor",)))
+                   timeout=(1800 if thorough else 600), count=False, lib_dirs=(vcheck.COMMON,) + tuple(os.path.join(vcheck.SPEC, d) for d in ("cursor",)))
             inp = ck.path("gen-%d-inputs.ndjson" % k)
             s = ck.drive(suite, "inputs", "-cases", cases, "-out", inp, "-seed", ck.seed, *flags, timeout=1200)
             # cap the number of documents (deterministic stride) and give documents without a language their suite's default
